@@ -1,4 +1,5 @@
 import Zeno.Proofs.Warc
+import Zeno.Proofs.Body
 import Zeno.Gen.Archiver
 import Zeno.Gen.Queue
 /-!
@@ -54,5 +55,36 @@ theorem c02_challenge_retried (status : Nat) (cf : Bool) (h : status = 403 ∧ c
 example :
     admissible A Q true (fun _ => [1, 2]) [] [.written 1, .settled 1, .written 2, .archived 2, .notify 0, .deleted 0] = true ∧
     admissible A Q true (fun _ => [1, 2]) [] [.settled 1, .written 2, .archived 2, .notify 0] = false := by decide
+
+/-! ## the payload is read to its last byte
+
+`A.processBody` is `archiver.ProcessBody` translated statement by statement from the source on every run (tools/facts/sec_body.go):
+reads of the response body (`drain`, `sniff n`, `spool`), returns, and the branch conditions; anything else that touches the body or
+returns is `opaque`. The WARC library records what the crawler reads of an exchange, so "byte-identical payload" needs the body read
+to its end whenever `ProcessBody` succeeds. -/
+
+theorem body_translated : (Zeno.Model.Body.allPathsDrain A.processBody && A.copyWithTimeoutReadsToEOF && A.copyWithTimeoutNReadsN) = true := by
+  decide
+
+/-- **Every successful `ProcessBody` has read the whole body** — for every combination of the capture flags, every MIME class, every
+other condition in the function and every body length; and the translation contains no statement the translator failed to
+understand. -/
+theorem c02_body_read_to_the_end (e : Zeno.Model.Body.Env) :
+    (∀ r k, Zeno.Model.Body.run A.processBody e = .ok r k → r = e.len) ∧ Zeno.Model.Body.run A.processBody e ≠ .unknown :=
+  Zeno.Model.Body.drains_sound A.processBody (by decide) e
+
+/-- a body is kept for post-processing exactly when its MIME type asks for it (and then it was read to the end into the spool) -/
+theorem c02_body_kept_iff (e : Zeno.Model.Body.Env) (he : e.other = fun _ => true) :
+    Zeno.Model.Body.run A.processBody e = .ok e.len e.mimePost := by
+  obtain ⟨np, mp, o, l⟩ := e
+  simp only at he
+  subst he
+  cases np <;> cases mp <;> simp [Zeno.Model.Body.run, A, Zeno.Gen.Archiver.facts, BBlock.exec, BStmt.exec, Zeno.Model.Body.BCond.eval] <;> omega
+
+/-- the two shapes seeded changes gave it: a drain under a content-length condition, and an early return for redirects -/
+theorem c02_body_counterexamples :
+    Zeno.Model.Body.allPathsDrain (.cons (.sniff 2048) (.cons (.ite (.other "resp.ContentLength > 2048") (.cons .drain .nil) .nil) (.cons .ret .nil))) = false ∧
+    Zeno.Model.Body.allPathsDrain (.cons (.ite (.other "isRedirect") (.cons .ret .nil) .nil) (.cons .drain (.cons .ret .nil))) = false := by
+  decide
 
 end Zeno.Props.C02
